@@ -29,6 +29,17 @@ impl core::ops::Add<BigUint> for BigUint {
     #[verifier::external_body]
     fn add(self, rhs: BigUint) -> (r: BigUint) { unimplemented!() }
 }
+/// num-bigint: `a - b` on BigUint PANICS when b > a ("Cannot subtract b from a because b is larger than a"): precondition
+impl vstd::std_specs::ops::SubSpecImpl<BigUint> for BigUint {
+    open spec fn obeys_sub_spec() -> bool { true }
+    open spec fn sub_req(self, rhs: BigUint) -> bool { self.val() >= rhs.val() }
+    open spec fn sub_spec(self, rhs: BigUint) -> BigUint { big_of((self.val() - rhs.val()) as nat) }
+}
+impl core::ops::Sub<BigUint> for BigUint {
+    type Output = BigUint;
+    #[verifier::external_body]
+    fn sub(self, rhs: BigUint) -> (r: BigUint) { unimplemented!() }
+}
 impl vstd::std_specs::cmp::PartialEqSpecImpl<BigUint> for BigUint {
     open spec fn obeys_eq_spec() -> bool { true }
     open spec fn eq_spec(&self, other: &BigUint) -> bool { self.val() == other.val() }
